@@ -19,6 +19,7 @@ type c14Case struct {
 	Order    []int           `json:"order"`
 	AdvPerm  [][]int         `json:"adv_perm"`
 	Churn    []int           `json:"churn"`
+	Prior    [][]vw.BGPAdv   `json:"prior"` // per session: an earlier advertisement list (nil = none)
 }
 
 func c14Perm(rt *rapid.T, n int, label string) []int {
@@ -39,6 +40,9 @@ func genC14(rt *rapid.T) c14Case {
 		c.AdvPerm = append(c.AdvPerm, c14Perm(rt, len(s.Advs), "advperm"))
 	}
 	c.Churn = rapid.SliceOfN(rapid.IntRange(0, 4), 0, 3).Draw(rt, "churn")
+	for _, s := range c.Sessions {
+		c.Prior = append(c.Prior, vw.GenPriorAdvs(rt, s.Advs))
+	}
 	return c
 }
 
@@ -55,12 +59,12 @@ func runC14(c c14Case, tr *vw.Trace) *vw.Violation {
 		panic("verif-inconclusive: interpreter does not know a construct: " + err.Error())
 	}
 	// determinism: creation order, advertisement order, close/re-create history
-	text2, err := VerifRender(c.Sessions, c.Order, c.AdvPerm, c.Churn)
+	text2, err := VerifRender(c.Sessions, c.Order, c.AdvPerm, c.Churn, c.Prior)
 	if err != nil {
 		return vw.Violationf("render-error", "rendering (permuted) failed: %v", err)
 	}
 	if text2 != text {
-		return vw.Violationf("text-depends-on-order", "the configuration text depends on creation order / advertisement order / session churn:\n--- canonical\n%s\n--- permuted (order %v churn %v)\n%s", text, c.Order, c.Churn, text2)
+		return vw.Violationf("text-depends-on-order", "the configuration text depends on creation order / advertisement order / earlier Set calls / session churn:\n--- canonical\n%s\n--- permuted (order %v churn %v)\n%s", text, c.Order, c.Churn, text2)
 	}
 	subset, repeated := false, false
 	all := map[string]bool{}
